@@ -20,7 +20,7 @@ PROPERTY = "C16"
 NSHARDS = {"quick": 4, "thorough": 16}
 CLAUSES = {
     "C16.roundtrip.hdf5": 400, "C16.roundtrip.table": 400,
-    "C16.lastwrite": 150,
+    "C16.lastwrite": 150, "C16.lastwrite.handle": 300,
     "C16.vcf.phased": 100, "C16.vcf.unphased": 100,
     "C16.copy.equal": 400, "C16.copy.isolated": 200,
     "C16.returns": 500,
@@ -31,7 +31,9 @@ RULE = ("seeded class-based zoo over 34 classes (7 core labelled-matrix base cla
         "arrays present/absent, taxa/variants grouped/ungrouped, 1-3 traits, label alphabets ASCII / non-ASCII / with "
         "separators, sorted / unsorted label order, NaN data, standardised / arbitrary location-scale; group paths None / "
         "nested / trailing slash / non-ASCII / with spaces; file given as str / Path / open h5py.File; write histories of "
-        "2-4 objects on one location (richer->poorer, poorer->richer, same, cross-class); harness-written VCF text (1-4 "
+        "2-4 objects on one location (richer->poorer, poorer->richer, same, cross-class); multi-step sessions through one "
+        "caller-owned open h5py.File (2-3 groups written, read back - some twice -, overwritten, read again; handle checked "
+        "open and usable after every call; file judged after the caller closes it); harness-written VCF text (1-4 "
         "contigs, shuffled records, missing IDs, multi-allelic calls, extra FORMAT keys, non-ASCII sample names; plus a "
         "'many variants, few samples' class of 1025/1500/2600/4100 variants x 1-4 samples, about 6 files per quick run).  A case is "
         "non-trivial when the object has more than one entry on some labelled axis; distinct = digest of the object's "
@@ -861,9 +863,129 @@ def _plain_read(spec, path, group, reader_cls=None):
     return cls.from_hdf5(path, group, **extra)
 
 
+def case_handle_session(ctx, c):
+    """Write histories through ONE caller-owned open h5py.File: several groups written, each read back (some twice),
+    overwritten and read again through the same handle.  After every call the handle must still be open and usable; the
+    final file contents are judged after the caller closes it.  References are plain file-name round trips, so defects of
+    the plain round trip are not counted twice."""
+    import h5py
+    g = ctx.rng("hs", c)
+    coords = [c, "hs"]
+    clause = "C16.lastwrite.handle"
+    kind = HDF5_CLASSES[(c // 5) % len(HDF5_CLASSES)]
+    d = scratch_dir()
+    f = None
+    try:
+        ng = int(g.integers(2, 4))
+        groups = [GROUPS[i] for i in g.choice(len(GROUPS), ng, replace=False)]
+        kinds = [kind] + [kind if g.random() < 0.7 else pick(g, HDF5_CLASSES) for _ in range(ng - 1)]
+        cur = [build(g, k) for k in kinds]                     # object currently meant to be in each group
+        over = [build(g, kinds[i], richness=pick(g, ["poor", "rich"])) for i in range(ng)]   # what overwrites it later
+        script = [("w", i) for i in range(ng)] + [("r", 0)] + ([("r", 0)] if g.random() < 0.6 else []) + [("r", i) for i in range(1, ng)]
+        script += [("o", 0), ("r", 0), ("r", 1)]
+        if g.random() < 0.5:
+            script += [("o", 1), ("r", 1), ("r", 1), ("r", 0)]
+        if ng > 2:
+            script += [("r", 2)]
+        refs = {}
+
+        def ref_of(spec):
+            if id(spec) not in refs:
+                fp = os.path.join(d, "ref%d.h5" % len(refs))
+                try:
+                    spec.obj.to_hdf5(fp, "ref")
+                    refs[id(spec)] = OE.freeze(OE.observe(_plain_read(spec, fp, "ref")))
+                except Exception as e:          # plain round trip fails: C16.roundtrip / C16.returns judge that
+                    ctx.raised("handle session: plain round trip of an object", e)
+                    refs[id(spec)] = None
+            return refs[id(spec)]
+        ctx.case("handle session/" + kind, [OE.digest(OE.observe(s_.obj)) for s_ in cur + over], repr(groups), repr(script), trivial=False)
+        if c % 97 == 0:
+            ctx.sample({"case": c, "route": "one caller-owned h5py.File", "classes": kinds, "groups": groups, "script": script})
+        path = os.path.join(d, "session.h5")
+        f = h5py.File(path, pick(g, ["a", "w"]))
+        wit = {"classes": kinds, "groups": groups, "script": script}
+        ncalls = 0
+        aborted = False
+        for step, (op, i) in enumerate(script):
+            if op == "o":
+                cur[i] = over[i]
+            spec = cur[i]
+            cls = type(spec.obj)
+            site = defsite(cls, "from_hdf5" if op == "r" else "to_hdf5")
+            when = "first call on the handle" if ncalls == 0 else "after earlier calls on the same handle"
+            w2 = dict(wit, step=step, op=op, group=groups[i])
+            try:
+                if op == "r":
+                    extra = {"gpmod": spec.meta["gpmod"]} if spec.kind in ("G_E_Phenotyping", "TruePhenotyping") else {}
+                    got = cls.from_hdf5(f, groups[i], **extra)
+                else:
+                    spec.obj.to_hdf5(f, groups[i])
+            except Exception as e:
+                ctx.raised(site + " through a caller-owned handle", e)
+                if ref_of(spec) is None:        # the same call fails with a file name too: not this clause's business
+                    aborted = True
+                    break
+                ctx.check(clause, False, site, "call through a caller-owned open h5py.File succeeds (raised %s)" % norm_msg(e), when,
+                          what="%s raised through an open handle although the same call works with a file name: %s: %s"
+                               % (site, type(e).__name__, str(e)[:160]), witness=w2, coords=coords)
+                aborted = True
+                break
+            ncalls += 1
+            alive = bool(f.id.valid)
+            usable = False
+            if alive:
+                try:
+                    f.flush(); list(f.keys()); usable = True
+                except Exception:
+                    usable = False
+            ctx.check(clause, alive and usable, site, "caller-owned h5py.File is still open and usable after the call", "read" if op == "r" else "write",
+                      what="%s closed (or invalidated) the h5py.File handed in by the caller" % site, witness=w2, coords=coords)
+            if not (alive and usable):
+                aborted = True
+                break
+            if op == "r":
+                ref = ref_of(spec)
+                if ref is not None:
+                    diffs = OE.diff(ref, OE.observe(got))
+                    ctx.check(clause, not diffs, site, "object read through the open handle equals the last one written to that group", when,
+                              what="%s: %s" % (site, diffs), witness=dict(w2, expected=ref, got=OE.observe(got), differing=diffs), coords=coords)
+        try:
+            f.close()
+        except Exception:
+            pass
+        f = None
+        if aborted:
+            return
+        for i, spec in enumerate(cur):          # final file contents, after the caller closed the handle
+            ref = ref_of(spec)
+            if ref is None:
+                continue
+            site = defsite(type(spec.obj), "to_hdf5")
+            try:
+                got = _plain_read(spec, path, groups[i])
+            except Exception as e:
+                ctx.check(clause, False, site, "final file contents readable after the caller closes the handle (raised %s)" % norm_msg(e),
+                          "after a write session through one handle", witness=dict(wit, group=groups[i]), coords=coords)
+                continue
+            diffs = OE.diff(ref, OE.observe(got))
+            ctx.check(clause, not diffs, site, "each group of the closed file holds the last object written to it through the handle",
+                      "after a write session through one handle", what="%s: %s" % (site, diffs),
+                      witness=dict(wit, group=groups[i], expected=ref, got=OE.observe(got), differing=diffs), coords=coords)
+    finally:
+        if f is not None:
+            try:
+                f.close()
+            except Exception:
+                pass
+        shutil.rmtree(d, ignore_errors=True)
+
+
 def case_lastwrite(ctx, c):
     """History independence: what is read after a sequence of writes to one location must be what a write of the last
     object alone to a fresh location gives (whether *that* equals the object is C16.roundtrip's business)."""
+    if c % 5 and c % 3 == 0:       # a third of the HDF5 histories: multi-step session through one caller-owned handle
+        return case_handle_session(ctx, c)
     g = ctx.rng("lw", c)
     coords = [c, "lw"]
     fmt = "hdf5" if c % 5 else "csv"
@@ -1236,7 +1358,7 @@ def one_case(ctx, c, fam=None):
     k = c // len(FAMILIES)
     if fam == "rt":
         k = (c // len(FAMILIES)) * 3 + {0: 0, 1: 1, 5: 2}[c % len(FAMILIES)]
-    {"rt": case_roundtrip, "lw": case_lastwrite, "cp": case_copy, "vcf": case_vcf}[fam](ctx, k)
+    {"rt": case_roundtrip, "lw": case_lastwrite, "cp": case_copy, "vcf": case_vcf, "hs": case_handle_session}[fam](ctx, k)
 
 
 def run_shard(ctx):
@@ -1251,6 +1373,6 @@ def replay(ctx, coords):
     install_hooks(ctx)
     k, fam = int(coords[0]), coords[1]
     try:
-        {"rt": case_roundtrip, "lw": case_lastwrite, "cp": case_copy, "vcf": case_vcf}[fam](ctx, k)
+        {"rt": case_roundtrip, "lw": case_lastwrite, "cp": case_copy, "vcf": case_vcf, "hs": case_handle_session}[fam](ctx, k)
     finally:
         cleanup_scratch()
